@@ -811,6 +811,11 @@ type nameState struct {
 	curBef, curAft         int
 	olderStarB, olderStarA bool
 	dead                   []int // handlers that belonged to the name when a Remove hit it (this and earlier lives)
+	// entryReq: some call that made an entry under the name in this life (the first registration, a Register
+	// under the existing name, a Replace carrying a request) carried a Before/After request. entries = number
+	// of entries the name was given in this life.
+	entryReq bool
+	entries  int
 	removedMulti           bool  // the Remove that ended the current/last life hit a multi name
 }
 
@@ -845,7 +850,7 @@ func (ns *nameState) unspec() bool { return ns.weak || ns.multi }
 func model(p *pipeline, seq []step) map[int]*nameState {
 	m := map[int]*nameState{}
 	for i := range p.builtins {
-		m[i] = &nameState{live: true, handler: -1, bef: none, aft: none, curBef: none, curAft: none, mustLast: true}
+		m[i] = &nameState{live: true, handler: -1, bef: none, aft: none, curBef: none, curAft: none, mustLast: true, entries: 1}
 	}
 	everNamed := map[int]bool{} // names whose Register/Replace calls so far carried a named (not "*") request
 	fresh := func(n int, ns *nameState) {
@@ -866,9 +871,11 @@ func model(p *pipeline, seq []step) map[int]*nameState {
 				ns.handler, ns.multi, ns.mustLast = i, true, false
 				ns.lastBef, ns.lastAft, ns.lastReplace, ns.olderNamed = int(s.Bef), int(s.Aft), false, everNamed[n]
 				ns.second(int(s.Bef), int(s.Aft))
+				ns.entries++
+				ns.entryReq = ns.entryReq || !plain
 			} else {
 				// (a built-in name that was removed and is registered anew is no built-in any more: unspecified)
-				fresh(n, &nameState{live: true, weak: n < userBase, handler: i, bef: int(s.Bef), aft: int(s.Aft), curBef: int(s.Bef), curAft: int(s.Aft), mustLast: true})
+				fresh(n, &nameState{live: true, weak: n < userBase, handler: i, bef: int(s.Bef), aft: int(s.Aft), curBef: int(s.Bef), curAft: int(s.Aft), mustLast: true, entries: 1, entryReq: !plain})
 			}
 		case opReplace:
 			if ns := m[n]; ns != nil && ns.live {
@@ -882,6 +889,8 @@ func model(p *pipeline, seq []step) map[int]*nameState {
 					ns.handler, ns.multi, ns.mustLast = i, true, false
 					ns.lastBef, ns.lastAft, ns.lastReplace, ns.olderNamed = int(s.Bef), int(s.Aft), true, everNamed[n]
 					ns.second(int(s.Bef), int(s.Aft))
+					ns.entries++
+					ns.entryReq = true
 				}
 			} else {
 				fresh(n, &nameState{live: true, weak: true, handler: i, bef: none, aft: none, curBef: none, curAft: none, mustLast: true})
@@ -1731,6 +1740,46 @@ func requirements(p *pipeline, m map[int]*nameState, withWeak bool) (out []req, 
 			out = append(out, req{lastID, id, "builtin-order", fmt.Sprintf("built-in %s fired before built-in %s", p.nameOf(id), p.nameOf(lastID)), ""})
 		}
 		lastID = id
+	}
+	// A BUILT-IN name that was given further entries while it existed (Register under the built-in's name,
+	// Replace carrying a request) and was never removed. Under either reading of such a call - the name is
+	// still the one built-in callback, its function defined anew; or the call added a callback of its own
+	// and the built-in persists - a callback of that name stands where the built-in stood: the statement's
+	// "built-in callbacks in their original relative order" holds for the handler of the name that fires
+	// (checked when exactly one of them fires), or a call had to return an error. The plain chain above is
+	// left as it is; these pairs link the name to its nearest specified neighbours on either side.
+	for id := range p.builtins {
+		ns := m[id]
+		if !ns.live || ns.weak || !ns.multi {
+			continue
+		}
+		// by what the entries of the name asked for: nothing at all (every call under the name was plain:
+		// nothing ever asked for the name to move) / some entry carried a request
+		class, sfx := "builtin-order:registered-again", ":multi-entry"
+		if ns.entryReq {
+			class = "builtin-order:multi-entry"
+			if ns.lastReplace {
+				class = "builtin-order:replace-request"
+			}
+			if ns.namedBy || ns.olderNamed {
+				sfx = ":multi-entry:rewritten" // (precondition of the sorter's known rewriting of stored requests)
+			}
+		}
+		spec := func(y int) bool { ys := m[y]; return ys.live && !ys.weak }
+		for y := id - 1; y >= 0; y-- {
+			if spec(y) {
+				out = append(out, req{y, id, class, fmt.Sprintf("built-in name %s (%d entries, never removed) fired before built-in %s", p.nameOf(id), ns.entries, p.nameOf(y)), sfx})
+				break
+			}
+		}
+		for y := id + 1; y < len(p.builtins); y++ {
+			if spec(y) {
+				if !m[y].multi { // (a several-entry successor links itself to this one)
+					out = append(out, req{id, y, class, fmt.Sprintf("built-in %s fired before built-in name %s (%d entries, never removed)", p.nameOf(y), p.nameOf(id), ns.entries), sfx})
+				}
+				break
+			}
+		}
 	}
 	for _, id := range ids {
 		ns := m[id]
